@@ -690,7 +690,7 @@ func (nc *nilCtx) computeChainFacts(r *Report) {
 			}
 			for k := range common {
 				// only paths rooted at handler cells are meaningful across closures
-				if strings.HasPrefix(k, h.Name()+"/") {
+				if strings.HasPrefix(k, fx.fnTok(h)+"/") {
 					acc[k] = true
 				}
 			}
@@ -1910,7 +1910,7 @@ func (cx *Ctx) checkHTTPStatus(r *Report, vf *VFlow, fns []*ssa.Function) {
 			r.Check(bad == "", "R-STATUS", w.FuncKey(fn)+":"+shortCallee(calleeName(c))+"@"+w.InstrPos(c), w.InstrPos(c), "constant status code in [100, 999]", bad+": net/http panics on an invalid status code")
 		}
 	}
-	if n < 10 {
+	if n < 1 { // (error replies may all go through one helper: the count says nothing about behaviour)
 		r.Fail("R-STATUS", "#status-sites", "", fmt.Sprintf("only %d status-code sites found", n))
 	}
 }
